@@ -201,9 +201,26 @@ def removal_pops(rec: sym.Record) -> List[POp]:
     return out
 
 
+def _index_alternatives(p: POp):
+    """`xs[3 if c else 0]`: one access per alternative of the index, each under its own condition."""
+    if p.kind != "sub" or p.key.op != "ite":
+        return [p]
+    import dataclasses
+    out = []
+
+    def go(key, pc):
+        if key.op == "ite" and len(out) < 8:
+            go(key.a[1], pc + ((key.a[0], True),))
+            go(key.a[2], pc + ((key.a[0], False),))
+        else:
+            out.append(dataclasses.replace(p, key=key, pc=pc))
+    go(p.key, tuple(p.pc))
+    return out
+
+
 def analyse_record(ctx: Ctx, run: Run, rec: sym.Record, module: str, root: str, state_params: Set[str], seen: Dict) -> int:
     n = 0
-    for p in list(rec.pops) + removal_pops(rec):
+    for p in [q for p0 in list(rec.pops) + removal_pops(rec) for q in _index_alternatives(p0)]:
         c = classify_pop(ctx, p, state_params)
         if c is None:
             continue
